@@ -128,7 +128,7 @@ func (s *SchedSpec) explore(c *Ctx, prefix []vsched.Choice, split bool) (childre
 			ok := y.outcome == x.outcome
 			found := false
 			for _, o := range y.viols {
-				if o.Assert == v.Assert && o.Witness == v.Witness && o.Detail == v.Detail {
+				if o.Assert == v.Assert && o.Witness == v.Witness {
 					found = true
 				}
 			}
